@@ -39,6 +39,8 @@ AmpRecs(u) == LET S == {<<f, k>> : f \in 1..Len(AmpFamilies), k \in 1..Len(AmpFa
                Q == SetToSeq(S)
            IN [q \in 1..Len(Q) |-> [id |-> q, amp |-> AmpFamilies[Q[q][1]], k |-> AmpFactors[Q[q][2]]]]
 
+StressRecs(u) == LET S == SetToSeq({<<t, x>> : t \in 1..Len(StressTemplates), x \in 1..Len(Stressors)})
+                 IN [q \in 1..Len(S) |-> [id |-> q, toks |-> <<StressTemplates[S[q][1]][1], Stressors[S[q][2]], StressTemplates[S[q][1]][2]>>]]
 Out(r) == LET v == TLCEval(r) IN ndJsonSerialize(OutF, v) /\ PrintT(<<"EXPORTED", Len(v)>>)
 
 VARIABLE done
@@ -51,6 +53,7 @@ Next == /\ ~done /\ done' = TRUE
              [] What = "sizefix" -> Out(SizeRecs(0))
              [] What = "spell" -> Out(SpellRecs(0))
              [] What = "vocab" -> Out(VocabRecs(0))
+             [] What = "stress" -> Out(StressRecs(0))
              [] What = "amp" -> Out(AmpRecs(0))
              [] What = "fixtures" -> Out(FixRecs(0))
              [] What = "texts" -> Out(TextRecs(0))
